@@ -112,6 +112,10 @@ struct RecSink {
 
 #[derive(Default)]
 struct Gate {
+    /// event counter of the case (orders "flush complete" against the completion of other threads' operations)
+    seq: AtomicU64,
+    /// sequence number at which the gated drop (the flush of the detached sink) completed; 0 = not yet
+    flushed: AtomicU64,
     entered: AtomicU64,
     open: Mutex<bool>,
     cv: std::sync::Condvar,
@@ -151,6 +155,8 @@ struct GatedDrop(Arc<Gate>);
 impl Drop for GatedDrop {
     fn drop(&mut self) {
         self.0.pass();
+        // the flush-complete event of the detached sink
+        self.0.flushed.store(self.0.seq.fetch_add(1, Ordering::SeqCst) + 1, Ordering::SeqCst);
     }
 }
 
@@ -1579,16 +1585,23 @@ impl AdCase {
             None => 0,
         };
         let c = AdCase { kind, wait_ms: v[2].parse().ok()?, block: v[3].parse().ok()?, pre, case: Case::decode(rest)? };
-        if c.case.ops.len() < pre + c.block || !(c.block == 3 || c.block == 4) {
+        if c.case.ops.len() < pre + c.block || !(3..=6).contains(&c.block) || (c.block > 4 && kind != 'f') {
             return None;
         }
         let ops = &c.case.ops[pre..];
-        let ok = matches!(kind, 'a' | 'r' | 't' | 'd')
+        let ok = matches!(kind, 'a' | 'r' | 't' | 'd' | 'f')
             && ops.len() >= c.block
             && c.wait_ms <= 2000
             && c.case.init.is_none()
             && match (kind, &ops[0].op, &ops[1].op, &ops[2].op) {
                 ('a', Op::Attach(_), Op::DropAttach(_), Op::Attach(_)) => true,
+                // `f`: observers of any kind while the detach is inside the detached sink's flush
+                ('f', Op::Attach(_), Op::DropAttach(_), _) => ops[2..c.block].iter().all(|o| {
+                    matches!(
+                        o.op,
+                        Op::Attach(_) | Op::TryAppend(_) | Op::Append(_) | Op::Sink(_) | Op::TrySink(_) | Op::IsAttached | Op::SetTL(_) | Op::SetRT(..) | Op::SetRTCur(_)
+                    )
+                }),
                 ('r', Op::SetRT(k, _), Op::DropRT(k1, _), Op::SetRT(..) | Op::SetRTCur(_)) => k == k1,
                 ('t', Op::SetTL(_), Op::DropTL(_), Op::SetTL(_)) => ops[0].t == ops[1].t,
                 // `d`: while A's guard drop is parked inside the registry's critical section, B drops (or
@@ -1597,8 +1610,13 @@ impl AdCase {
                 _ => false,
             }
             // A parks its thread, B may block: the three concurrent ops need three different threads
-            && ops[1].t != ops[2].t
-            && (c.block == 3 || (ops[3].entry().is_some() && ops[3].t != ops[1].t && ops[3].t != ops[2].t));
+            && {
+                let mut ts: Vec<usize> = ops[1..c.block].iter().map(|o| o.t).collect();
+                ts.sort_unstable();
+                ts.dedup();
+                ts.len() == c.block - 1
+            }
+            && (kind == 'f' || c.block == 3 || ops[3].entry().is_some());
         if ok { Some(c) } else { None }
     }
 }
@@ -1661,7 +1679,7 @@ impl Shard {
                     let vt = &GLOBALS[g];
                     let mk = |s: u64| RecSink { label: Arc::new(AtomicU64::new(s)), log: log.clone(), gate: None };
                     let r = match (kind, &op) {
-                        ('a', Op::Attach(s)) => {
+                        ('a' | 'f', Op::Attach(s)) => {
                             let sink = mk(*s);
                             let label = sink.label.clone();
                             catch(|| (vt.attach_gated)(sink, GatedDrop(gate))).map(|h| {
@@ -1694,9 +1712,23 @@ impl Shard {
         results.push(res0);
 
         // ---- the concurrent block
+        // every concurrent op reports the event number at which it completed
         let submit = |me: &Shard, it: &Item| {
-            let (op, sh, log, hs) = (it.op.clone(), shared.clone(), me.log.clone(), me.crew.handles.clone());
-            me.crew.submit(it.t, Crew::mode_for(it.t, it.r), Box::new(move |local| exec_op(g, &op, local, &sh, &log, &hs)))
+            let (op, sh, log, hs, gt) = (it.op.clone(), shared.clone(), me.log.clone(), me.crew.handles.clone(), gate.clone());
+            me.crew.submit(
+                it.t,
+                Crew::mode_for(it.t, it.r),
+                Box::new(move |local| {
+                    let raw = exec_op(g, &op, local, &sh, &log, &hs);
+                    format!("{raw}\u{1}{}", gt.seq.fetch_add(1, Ordering::SeqCst) + 1)
+                }),
+            )
+        };
+        let split = |s: String| -> (String, u64) {
+            match s.rsplit_once('\u{1}') {
+                Some((raw, n)) => (raw.to_string(), n.parse().unwrap_or(0)),
+                None => (s, 0),
+            }
         };
         let a = submit(self, &ops[1]);
         let t0 = std::time::Instant::now();
@@ -1706,23 +1738,26 @@ impl Shard {
         if gate.entered.load(Ordering::Acquire) == 0 && failure.is_none() {
             failure = Some(("concurrent:slow-drop".into(), format!("`{}` never reached the drop of the object it removes", ops[1].encode())));
         }
-        let b = submit(self, &ops[2]);
-        let c = if ad.block == 4 { Some(submit(self, &ops[3])) } else { None };
+        let observers: Vec<_> = ops[2..ad.block].iter().map(|it| submit(self, it)).collect();
         std::thread::sleep(std::time::Duration::from_millis(ad.wait_ms));
-        let b_early = b.try_recv().ok();
+        let early: Vec<Option<String>> = observers.iter().map(|o| o.try_recv().ok()).collect();
         let a_early = a.try_recv().ok();
         if a_early.is_some() && failure.is_none() {
             failure = Some(("concurrent:slow-drop".into(), format!("`{}` returned before the drop of the removed object had finished", ops[1].encode())));
         }
         gate.open();
-        let raw_a = a_early.unwrap_or_else(|| a.recv().expect("crew reply"));
-        let b_waited = b_early.is_none();
-        let raw_b = b_early.unwrap_or_else(|| b.recv().expect("crew reply"));
-        let raw_c = c.map(|c| c.recv().expect("crew reply"));
+        let (raw_a, _) = split(a_early.unwrap_or_else(|| a.recv().expect("crew reply")));
+        let b_waited = early.first().map(|e| e.is_none()).unwrap_or(true);
+        let mut block_raw = vec![raw_a];
+        let mut done_seq = vec![0u64];
+        for (o, e) in observers.into_iter().zip(early) {
+            let (raw, n) = split(e.unwrap_or_else(|| o.recv().expect("crew reply")));
+            block_raw.push(raw);
+            done_seq.push(n);
+        }
+        let flushed_at = gate.flushed.load(Ordering::SeqCst);
         let recs: Vec<Rec> = self.log.lock().unwrap()[seen0..].to_vec();
         let mut seen = seen0 + recs.len();
-        let mut block_raw = vec![raw_a, raw_b];
-        block_raw.extend(raw_c);
         let mut block_res = vec![];
         for (j, raw) in block_raw.iter().enumerate() {
             let it = &ops[1 + j];
@@ -1735,6 +1770,35 @@ impl Shard {
                 failure = Some(("concurrent:exactly-one".into(), format!("`{}`: {p}", it.encode())));
             }
             block_res.push(res);
+        }
+        // ---- flush ordering (attach handle only): whoever observes the detached state — an entry handed back, `None`,
+        // `is_attached() == false`, the "must be attached" panic of append()/sink(), a successful re-attach — must do
+        // so after the detached sink's flush (the drop of the taken pair) has completed
+        let sees_detached = |it: &Item, res: &str| -> bool {
+            res.starts_with("ret")
+                || res == "none"
+                || res == "F"
+                || (res == "panic" && matches!(it.op, Op::Append(_) | Op::Sink(_) | Op::Hold(_)))
+                || (res == "ok" && matches!(it.op, Op::Attach(_)))
+        };
+        let mut early_idx: Vec<usize> = vec![];
+        if matches!(ad.kind, 'a' | 'f') {
+            for j in 1..block_res.len() {
+                if done_seq[j] != 0 && (flushed_at == 0 || done_seq[j] < flushed_at) {
+                    early_idx.push(j);
+                    if sees_detached(&ops[1 + j], &block_res[j]) && failure.is_none() {
+                        failure = Some((
+                            "concurrent:detached-before-flush".into(),
+                            format!(
+                                "`{}` answered `{}` (the global looks detached) while the drop of the attach handle was still inside the detached sink's flush: \
+                                 the property restores routing to the next destination only after flushing what the detached sink had accepted",
+                                ops[1 + j].encode(),
+                                block_res[j]
+                            ),
+                        ));
+                    }
+                }
+            }
         }
         let carried: Vec<u64> = ops[1..ad.block].iter().filter_map(|i| i.entry()).collect();
         if recs.iter().any(|r| !carried.contains(&r.entry)) && failure.is_none() {
@@ -1790,20 +1854,32 @@ impl Shard {
         let mut req = vec!["init=-".to_string()];
         req.extend(ad.case.ops[..=ad.pre].iter().map(|i| i.encode()));
         results.truncate(ad.pre + 1);
-        let mut pending_drop_pair: Option<String> = None;
-        for j in &perm {
-            let it = &ops[1 + j];
-            if ad.kind == 'a' && *j == 0 {
-                let ctx = it.encode().split(':').next().unwrap_or("").to_string();
-                req.push(format!("{ctx}:take"));
-                pending_drop_pair = Some(format!("{ctx}:dropPair"));
+        // kinds a/f: `<A>:take`, the ops directly after it that completed before the flush did, `<A>:dropPair`, the rest
+        let micro = matches!(ad.kind, 'a' | 'f');
+        let apos = perm.iter().position(|j| *j == 0).unwrap_or(0);
+        // (the explaining order is kept as it is: `dropPair` goes after the longest run of ops following A that
+        // completed before the flush did)
+        let mut order: Vec<usize> = perm[..apos].to_vec();
+        order.push(0);
+        let n_early = perm[apos + 1..].iter().take_while(|j| micro && early_idx.contains(j)).count();
+        order.extend(&perm[apos + 1..apos + 1 + n_early]);
+        order.push(usize::MAX); // dropPair marker
+        order.extend(&perm[apos + 1 + n_early..]);
+        let actx = ops[1].encode().split(':').next().unwrap_or("").to_string();
+        for j in &order {
+            if *j == usize::MAX {
+                if micro {
+                    req.push(format!("{actx}:dropPair"));
+                }
+                continue;
+            }
+            if micro && *j == 0 {
+                req.push(format!("{actx}:take"));
             } else {
-                req.push(it.encode());
+                req.push(ops[1 + j].encode());
             }
             results.push(block_res[*j].clone());
         }
-        // the old pair is gone once the gate has opened, i.e. after every op of the block took effect
-        req.extend(pending_drop_pair);
         for (it, res) in ops[ad.block..].iter().zip(tail_res.iter()) {
             req.push(it.encode());
             results.push(res.clone());
@@ -1812,10 +1888,10 @@ impl Shard {
         self.finish(g, &shared, None, &mut failure);
         Some(AdOutcome {
             request: req.join(" "),
-            results: results.join(" "),
+            results: format!("{}{}", results.join(" "), if micro { " flush=ok" } else { "" }),
             failure,
             b_waited,
-            order: perm.iter().map(|j| ["A", "B", "C"][*j]).collect::<Vec<_>>().join(""),
+            order: perm.iter().map(|j| ["A", "B", "C", "D", "E"][*j]).collect::<Vec<_>>().join(""),
         })
     }
 }
@@ -1836,7 +1912,44 @@ fn gen_adrace(rng: &mut Rng, kind: char, wait_ms: u64) -> AdCase {
         e
     };
     let mut pre = 0;
+    let mut block_override = None;
     match kind {
+        'f' => {
+            // observers of every kind while the detach is parked inside the detached sink's flush
+            ops.push(at(ta, None, Op::Attach(1)));
+            ops.push(at(ta, None, Op::DropAttach(how_a)));
+            let others = [tb, tc, tp, threads[4]];
+            let n_obs = rng.range(1, 4) as usize;
+            let mut kinds: Vec<u64> = (0..9).collect();
+            rng.shuffle(&mut kinds);
+            for (i, t) in others.iter().take(n_obs).enumerate() {
+                let r = if rng.chance(1, 4) { Some(k) } else { None };
+                let op = match kinds[i] {
+                    0 | 8 => Op::TryAppend(next()),
+                    1 => Op::IsAttached,
+                    2 => Op::TrySink(next()),
+                    3 => Op::Sink(next()),
+                    4 => Op::Append(next()),
+                    5 => Op::Attach(2),
+                    6 => Op::SetTL(5),
+                    _ => Op::SetRT(k, 6),
+                };
+                ops.push(at(*t, r, op));
+            }
+            block_override = Some(2 + n_obs);
+            for (t, r) in [(tp, None), (tc, Some(k)), (ta, None), (tb, Some(1 - k))] {
+                ops.push(at(t, r, Op::TryAppend(next())));
+            }
+            ops.push(at(tb, None, Op::IsAttached));
+            ops.push(at(tp, None, Op::Attach(3)));
+            ops.push(at(ta, None, Op::TryAppend(next())));
+            ops.push(at(tc, None, Op::DropAttach(gen_how(rng, true))));
+            ops.push(at(ta, None, Op::TryAppend(next())));
+            ops.push(at(tb, None, Op::DropTL(How::Normal)));
+            ops.push(at(tc, None, Op::DropTL(How::Normal)));
+            ops.push(at(tp, None, Op::DropRT(k, How::Normal)));
+            ops.push(at(ta, Some(k), Op::TryAppend(next())));
+        }
         'd' => {
             // runtime 1-k has a plain test sink (and sometimes something is attached); runtime k's sink has the slow drop
             let k2 = 1 - k;
@@ -1932,7 +2045,7 @@ fn gen_adrace(rng: &mut Rng, kind: char, wait_ms: u64) -> AdCase {
             ops.push(at(tb, None, Op::TryAppend(next())));
         }
     }
-    AdCase { kind, wait_ms, block: if third { 4 } else { 3 }, pre, case: Case { init: None, ops } }
+    AdCase { kind, wait_ms, block: block_override.unwrap_or(if third { 4 } else { 3 }), pre, case: Case { init: None, ops } }
 }
 
 // ------------------------------------------------------------------------------------------------
@@ -2640,9 +2753,9 @@ fn main() {
                     seed: r.next_u64() % 1_000_000,
                 }));
             }
-            let n_ad = if thorough { 45 } else { 9 };
+            let n_ad = if thorough { 70 } else { 14 };
             for i in 0..n_ad {
-                let kind = ['a', 'd', 'r', 'a', 'd', 't', 'a', 'r', 'd'][i % 9];
+                let kind = ['a', 'f', 'd', 'f', 'r', 'f', 'a', 'd', 't', 'f', 'a', 'r', 'd', 'f'][i % 14];
                 race_cases[s].push(Conc::Ad(gen_adrace(&mut r, kind, if thorough { 25 } else { 30 })));
             }
             let n_gates = if thorough { 30 } else { 6 };
